@@ -4,7 +4,9 @@ History machine over one long-lived CondSRF wrapping one long-lived Krige, plus 
 differs only in seed-object identity and storage names.  Oracles after every generation:
 fresh-object refinement, the defining formula K + sqrt(V/var)*U, honouring of the data.
 """
+import contextlib
 import copy
+import io
 
 import numpy as np
 
@@ -359,7 +361,21 @@ class Machine:
 
     def _gen_fault(self, rng):
         f = rng.choice(["global_rng", "global_rng", "num_threads", "rejected_set",
-                        "callback_raise"])
+                        "callback_raise", "fp_trap"])
+        if f == "fp_trap":
+            # right after an in-place model change, so that generator and kriging have work
+            # in flight (model copy, resampling, new kriging matrix) when the call trips
+            op = {"fault": f, "kind": rng.choice(["divide", "invalid", "under", "under", "all"]),
+                  "idx": rng.sample(range(self.npool), rng.randint(1, min(4, self.npool))),
+                  "set_first": {"param": rng.choice(["len_scale", "len_scale", "var"]),
+                                "value": rng.choice(cm.LEN_GRID)}
+                  if rng.random() < 0.7 else None}
+            m = self.spec["model"]
+            if m["cls"] not in cm.TRAP_PRONE and rng.random() < 0.5 and not self.latlon:
+                # most families never trip a trap: move to one that does
+                op["assign_first"] = cm.gen_model_spec(
+                    rng, self.mdim, name=rng.choice(cm.TRAP_PRONE), nugget=m["nugget"])
+            return op
         if f == "global_rng":
             return {"fault": f, "k": rng.randint(0, 2 ** 31), "n": rng.randint(0, 50)}
         if f == "num_threads":
@@ -475,7 +491,13 @@ class Machine:
                 kw["chunk_size"] = op["chunk"]
             if self.spec["krige"]["kind"] == "ExtDrift":
                 kw["ext_drift"] = self._ext_at(pts)
+            trap = contextlib.ExitStack()
+            if op.get("trap"):
+                # ambient fault: the caller runs this one call under an FP trap
+                trap.enter_context(np.errstate(**{op["trap"]: "raise"}))
+                trap.enter_context(contextlib.redirect_stdout(io.StringIO()))  # emcee report
             try:
+              with trap:
                 if pos is None:
                     res = s.cs(**kw)
                 elif lay == "buffer":
@@ -493,22 +515,30 @@ class Machine:
                         # the caller reuses its arrays: stored positions must be copies
                         for a in (p if isinstance(p, list) else [p]):
                             a += 3.25
-                results.append(np.array(res, dtype=np.double))
+              results.append(np.array(res, dtype=np.double))
             except cm.CallbackFault:
                 if s.tag != "sut":
                     raise HarnessError("twin callback raised")
                 failed = True
                 results.append(None)
+            except FloatingPointError:
+                if not op.get("trap"):
+                    raise
+                self.ctx.probe("fp_trap.tripped")
+                failed = True
+                # whether the failed call had already stored its positions is not specified
+                pos = last = None
+                break
             except (ValueError, IndexError, TypeError, AttributeError, KeyError,
                     np.linalg.LinAlgError) as e:
                 # the library raised on a legal call: compare with a fresh object
                 self._fresh_must_raise_too(op, pos, mesh_type, pts, last, post, e)
                 raise Inapplicable("call rejected by a fresh object too: %r" % (e,))
-        if pos is not None:
+        if pos is not None or (failed and last is None):
             self.last = last
         if failed:
             self.ctx.probe("call_failed_midway")
-            self.pending = ["set_condition", "gen"]
+            self.pending = ["gen"] if op.get("trap") else ["set_condition", "gen"]
             self.rng_fresh = False
             self.model_at_last_gen = jdump(self.spec["model"])
             # the twin did not fail: bring it to the same abstract state is not possible in
@@ -936,6 +966,30 @@ class Machine:
             self.spec["model"] = read_model(self.sut.cs.model)
             self.rng_fresh = False  # whether the generator saw the rejected value is not defined
             self._refresh()
+        elif f == "fp_trap":
+            idx = [i for i in op["idx"] if 0 <= i < self.npool]
+            if not idx:
+                raise Inapplicable("no points")
+            if op.get("assign_first"):
+                try:
+                    self._op_assign_model({"op": "assign_model", "model": op["assign_first"]})
+                    # generator and kriging take the family over in an ordinary call first
+                    self._op_gen({"op": "gen", "layout": "unstructured", "idx": idx[:1],
+                                  "seed": {"mode": "keep"}, "store": True, "krige_store": True,
+                                  "post": True})
+                except Inapplicable:
+                    pass
+            if op.get("set_first"):
+                try:
+                    self._op_inplace_model({"op": "inplace_model", "refresh": "noarg",
+                                            "param": op["set_first"]["param"],
+                                            "value": op["set_first"]["value"]})
+                except Inapplicable:
+                    pass
+            self.ctx.fired(f)
+            self._op_gen({"op": "gen", "layout": "unstructured", "idx": idx,
+                          "seed": {"mode": "keep"}, "store": True, "krige_store": True,
+                          "post": True, "trap": op["kind"]})
         elif f == "callback_raise":
             fn = self.sut.fns.get(op["what"])
             if not isinstance(fn, cm.LinFn):
